@@ -79,6 +79,7 @@ type HarnessRun struct {
 	inexact    int64
 	fpConvOOR  int64
 	xcount     int64
+	fallbacks  map[string]int64
 	steps      int64
 	maxDepth   int
 	t0         time.Time
@@ -110,6 +111,7 @@ type Path struct {
 	concrete  map[string]interface{} // non-nil: concrete (replay) mode
 	tags      map[string]bool
 	ghost     map[string]value
+	fbModel   map[string]string // model obtained from a fallback solver (raw SMT values)
 }
 
 // ---------------------------------------------------------------------------
@@ -146,13 +148,13 @@ func (p *Path) branch(c *Term) bool {
 		return d == 1
 	}
 	p.pos++
-	rT := p.sol.check(c, false)
+	rT := p.check(c, false)
 	if rT == rUnsat {
 		p.record(0)
 		p.sol.assert(tNot(c))
 		return false
 	}
-	rF := p.sol.check(c, true)
+	rF := p.check(c, true)
 	if rF == rUnsat {
 		p.record(1)
 		p.sol.assert(c)
@@ -188,7 +190,7 @@ func (p *Path) split(conds []*Term, what string) int {
 			}
 			continue
 		}
-		r := p.sol.check(c, false)
+		r := p.check(c, false)
 		if r != rUnsat {
 			feas = append(feas, i)
 			if r == rUnknown {
@@ -464,7 +466,7 @@ func (p *Path) assume(v value) {
 		p.sol.assert(t)
 		return
 	}
-	switch p.sol.check(t, false) {
+	switch p.check(t, false) {
 	case rUnsat:
 		panic(pathAbort{"assume-false"})
 	case rUnknown:
@@ -496,7 +498,7 @@ func (p *Path) assertProp(label string, v value) {
 		p.sol.assert(t)
 		return
 	}
-	res := p.sol.check(t, true)
+	res := p.check(t, true)
 	r.mu.Lock()
 	s := r.stat(label)
 	s.Reached++
@@ -599,7 +601,7 @@ func (p *Path) violation(label string, negOf *Term, detail string) {
 					res = rUnsat
 				}
 			} else {
-				res = p.sol.check(q, false)
+				res = p.check(q, false)
 			}
 		}
 		if res == rUnsat {
@@ -618,9 +620,9 @@ func (p *Path) violation(label string, negOf *Term, detail string) {
 	// obtain a model
 	var res satResult
 	if extra == nil || extra.isLit() {
-		res = p.sol.check(nil, false)
+		res = p.check(nil, false)
 	} else {
-		res = p.sol.check(extra, false)
+		res = p.check(extra, false)
 	}
 	if res != rSat {
 		r.noteUndecided(fmt.Sprintf("assert %s: could not obtain model (%s)", label, res))
@@ -651,7 +653,11 @@ func (p *Path) model() (map[string]interface{}, []string) {
 	}
 	vals := map[string]string{}
 	if len(names) > 0 {
-		vals = p.sol.getValues(names)
+		if p.fbModel != nil {
+			vals = p.fbModel
+		} else {
+			vals = p.sol.getValues(names)
+		}
 	}
 	out := map[string]interface{}{}
 	var order []string
